@@ -1,4 +1,4 @@
-import JunoModel.C04.ProofsClasses
+import JunoModel.C04.ProofsClasses2
 /-!
 C04 helper lemmas, part 9: on the legacy backend `State.Revert` undoes `State.Update`.
 -/
@@ -38,13 +38,12 @@ theorem purgeDeployed_spec {dep : Map Nat Nat} (hd : Sorted dep) {cs : Map Nat C
       rw [this]
       rfl
 
-/-- Hypotheses for the legacy backend: invariants of the state before the block (first group)
-and well-formedness of the block that juno does not check itself (second group). -/
-structure LegacyOK (s : State) (casm' : Map Nat CasmMeta) (b : Block) : Prop where
+/-- Hypotheses for the legacy backend: the class facts (`ClassesOK`), invariants of the contract
+and log buckets before the block, and well-formedness of the block that juno does not check itself. -/
+structure LegacyOK (cfg : Cfg) (s : State) (casm' : Map Nat CasmMeta) (b : Block) : Prop
+    extends ClassesOK cfg s casm' b where
   sC : Sorted s.contracts
   sSt : Sorted s.storage
-  sCl : Sorted s.classes
-  sTr : Sorted s.classTrie
   sHS : Sorted s.hStorage
   sHN : Sorted s.hNonce
   sHC : Sorted s.hClass
@@ -54,8 +53,6 @@ structure LegacyOK (s : State) (casm' : Map Nat CasmMeta) (b : Block) : Prop whe
   nonzero : ∀ p v, Map.get s.storage p = some v → v ≠ 0
   owned : ∀ a k v, Map.get s.storage (a, k) = some v → (Map.get s.contracts a).isSome = true
   genesis : b.number = 0 → s.contracts = []
-  classAt : ∀ c r, Map.get s.classes c = some r → r.declaredAt < b.number
-  trieSub : ∀ c v, Map.get s.classTrie c = some v → (Map.get s.classes c).isSome = true
   /-- no system contract exists with empty storage (the state in which the legacy `Revert` of
   any block fails, see `revert_total_legacy_counterexample`) -/
   noEmptySys : ∀ a, isSys a = true → (Map.get s.contracts a).isSome = true → storageEmpty s.storage a = false
@@ -63,19 +60,6 @@ structure LegacyOK (s : State) (casm' : Map Nat CasmMeta) (b : Block) : Prop whe
   dRep : Sorted b.diff.replaced
   dNon : Sorted b.diff.nonces
   dSto : Sorted b.diff.storage
-  dDecl : Sorted b.diff.declV1
-  dMig : Sorted b.diff.migrated
-  dDefs : Sorted b.classes
   depNotSys : ∀ a c, Map.get b.diff.deployed a = some c → isSys a = false
-  nodup : (b.diff.declV0 ++ Map.keys b.diff.declV1).Nodup
-  known0 : ∀ c ∈ b.diff.declV0, (Map.get s.classes c).isSome = true ∨ (Map.get b.classes c).isSome = true
-  decl1 : ∀ c h, Map.get b.diff.declV1 c = some h →
-    Map.get s.classes c = none ∧ ∃ d, Map.get b.classes c = some d ∧ d.sierra = true
-  /-- every supplied class definition is listed as declared (not so for the classes sync supplies
-  for deployed contracts, see `implicit_class_survives_revert`) -/
-  defsListed : ∀ c d, Map.get b.classes c = some d → c ∈ b.diff.declV0 ++ Map.keys b.diff.declV1
-  migOK : ∀ c y, Map.get b.diff.migrated c = some y →
-    ∃ md, Map.get casm' c = some md ∧ md.migratedAt ≠ 0 ∧
-      Map.get s.classTrie c = some ({ md with migratedAt := 0 } : CasmMeta).casmHash
 
 end Juno.C04
